@@ -1,0 +1,62 @@
+//go:build verif
+
+package interp
+
+import (
+	"go/build"
+	"sync/atomic"
+	"unsafe"
+)
+
+// Verification hooks. Compiled only with -tags verif; they expose unexported
+// pure functions and a per-operation step callback to an external harness and
+// change no behaviour of the interpreter.
+
+// VerifStepInfo describes one interpreted operation about to be executed.
+type VerifStepInfo struct {
+	Interp  *Interpreter
+	Frame   uintptr // identity of the frame executing the operation
+	FrameID uint64  // run id carried by the frame
+	RunID   uint64  // current run id of the interpreter
+	Root    uintptr // identity of the root frame of the goroutine-local call chain
+}
+
+var verifStepHook atomic.Value // of func(VerifStepInfo)
+
+// VerifSetStepHook installs (or, with nil, removes) a callback invoked before
+// every interpreted operation (one closure of the control-flow graph).
+func VerifSetStepHook(h func(VerifStepInfo)) {
+	if h == nil {
+		verifStepHook.Store((func(VerifStepInfo))(nil))
+		return
+	}
+	verifStepHook.Store(h)
+}
+
+func verifStep(n *node, f *frame) {
+	h, _ := verifStepHook.Load().(func(VerifStepInfo))
+	if h == nil {
+		return
+	}
+	r := f
+	for r.anc != nil {
+		r = r.anc
+	}
+	h(VerifStepInfo{
+		Interp:  n.interp,
+		Frame:   uintptr(unsafe.Pointer(f)),
+		FrameID: f.runid(),
+		RunID:   n.interp.runid(),
+		Root:    uintptr(unsafe.Pointer(r)),
+	})
+}
+
+// VerifSkipFile exposes skipFile.
+func VerifSkipFile(ctx *build.Context, p string, skipTest bool) bool {
+	return skipFile(ctx, p, skipTest)
+}
+
+// VerifBuildOk exposes (*Interpreter).buildOk.
+func (interp *Interpreter) VerifBuildOk(ctx *build.Context, name, src string) (bool, error) {
+	return interp.buildOk(ctx, name, src)
+}
